@@ -91,15 +91,18 @@ func spellEth(a, how string) string {
 // ruleMu: legs hold it shared; toggling the process-global list holds it exclusively
 var ruleMu sync.RWMutex
 
+// The list itself is installed the way an operator does it: the [blacklist] section of the
+// node's toml configuration (types/config.go parses it when the configuration is created).
+// withRule(false) clears it for the controls through the exported test switch and restores it.
 func withRule(on bool, f func()) {
 	ruleMu.Lock()
 	defer ruleMu.Unlock()
-	var l []string
-	if on {
-		l = blList()
+	if !on {
+		restore := types.SetBlockedAccountsForTest(nil)
+		defer restore()
+	} else if !types.IsBlockedAccount(blAccts["a1"].addr()) || !types.IsBlockedAccount(blAccts["a4"].addr()) {
+		panic("harness: the [blacklist] section of the configuration did not install the list")
 	}
-	restore := types.SetBlockedAccountsForTest(l)
-	defer restore()
 	f()
 }
 
@@ -188,7 +191,7 @@ func newRig(chain string, tip int64) (*blRig, error) {
 		title = "user.p.verifbl."
 	}
 	p := cfgParams{title: title, forkH: blForkH, limitH: 1, lim0: 10000, lim1: 10000, ethEnable: true,
-		extraSub: []string{"evm"}, minerStart: false}
+		extraSub: []string{"evm"}, minerStart: false, blacklistSection: blList()}
 	cfg := getCfg(p)
 	registerEvm(cfg)
 	log15.Root().SetHandler(log15.DiscardHandler())
@@ -696,8 +699,10 @@ func (d *blDrv) row(rig *blRig, row blRow, s core.Step) (any, any, error) {
 	// block (only where something is demanded: the block must be refused, so the tip stays)
 	ret["block"] = "n/a"
 	if touch && active {
-		if rig.tip.Height != row.h-1 {
-			return nil, nil, fmt.Errorf("rig tip %d does not allow a block at height %d", rig.tip.Height, row.h)
+		// the block is delivered at tip+1: that is the row height unless an earlier row's block was
+		// (wrongly) connected and moved the tip; the rule must be active there in any case
+		if rig.tip.Height+1 < blForkH {
+			return nil, nil, fmt.Errorf("rig tip %d: a block at height %d would be below the fork", rig.tip.Height, rig.tip.Height+1)
 		}
 		obs, err = rig.legBlock(br)
 		if err != nil {
